@@ -7,7 +7,7 @@ event, Completed always leads to removal + finishing, the end-game timer always 
 never touches the end-game timer, timers fire in deadline order, both timeouts are 1.5 s, and the
 stream's only sender moves into the search. The numeric bounds (3 s, 1.5 s * n + 3 s) and absence
 of unbounded re-iteration are NOT decided."""
-from . import lookup
+from . import common, lookup
 
 EXPLANATION = __doc__
 ASSUMPTIONS = ['tokio time drives Timer::poll_next; BTreeMap iterates keys in order', 'dropping the last UnboundedSender closes the stream']
@@ -25,3 +25,4 @@ def run(ctx, res):
     lookup.rule_round_nonempty(ctx, res)
     # a search that knows no good node starts nothing and closes at once: the seeds are exactly the good contacts
     lookup.rule_initial_pick(ctx, res)
+    common.rule_timer_cancel(ctx, res)
